@@ -451,28 +451,140 @@ theorem ttlsFrom_append (t : Nat) (l1 l2 : List (Probe × SendOutcome)) :
     · split <;> exact ih _
     · simp
 
-/-- the log of one iteration: all entries carry TTL `t`, all but the last are address-in-use, the
-last is not — so it consumes exactly one fresh TTL -/
-theorem ttlsFrom_iteration (t : Nat) (lg : List (Probe × SendOutcome)) (hne : lg ≠ [])
-    (hall : ∀ x ∈ lg, x.1.ttl = t)
-    (hinit : ∀ k (h : k + 1 < lg.length), lg[k].2 = .addrInUse)
-    (hlast : (lg.getLast hne).2 ≠ .addrInUse) : ttlsFrom t lg = some (t + 1) := by
-  induction lg with
-  | nil => exact absurd rfl hne
+/-- shape of the log of one sending iteration: some re-issues (address in use), then one final
+call that was not (sent, or failed to send) -/
+def LogShape (lg : List (Probe × SendOutcome)) : Prop :=
+  ∃ pre last, lg = pre ++ [last] ∧ (∀ x ∈ pre, x.2 = .addrInUse) ∧
+    (last.2 = .ok ∨ last.2 = .probeFailed)
+
+theorem ttlsFrom_reissues (t : Nat) (pre : List (Probe × SendOutcome))
+    (hall : ∀ x ∈ pre, x.1.ttl = t) (hin : ∀ x ∈ pre, x.2 = .addrInUse) : ttlsFrom t pre = some t := by
+  induction pre with
+  | nil => rfl
   | cons x xs ih =>
     obtain ⟨p, o⟩ := x
     have hp : p.ttl = t := hall (p, o) (by simp)
-    cases xs with
-    | nil =>
-      simp at hlast
-      simp [ttlsFrom, hp, hlast]
-    | cons y ys =>
-      have ho : o = .addrInUse := by have := hinit 0 (by simp); simpa using this
-      simp only [ttlsFrom, hp, ho, if_true]
-      apply ih (by simp) (fun z hz => hall z (by simp [hz]))
-      · intro k hk
-        have := hinit (k + 1) (by simp at hk ⊢; omega)
-        simpa using this
-      · simpa using hlast
+    have ho : o = .addrInUse := hin (p, o) (by simp)
+    simp only [ttlsFrom, hp, ho, if_true]
+    exact ih (fun z hz => hall z (by simp [hz])) (fun z hz => hin z (by simp [hz]))
+
+/-- one sending iteration consumes exactly one fresh TTL -/
+theorem ttlsFrom_iteration (t : Nat) (lg : List (Probe × SendOutcome)) (hs : LogShape lg)
+    (hall : ∀ x ∈ lg, x.1.ttl = t) : ttlsFrom t lg = some (t + 1) := by
+  obtain ⟨pre, last, rfl, hin, hl⟩ := hs
+  rw [ttlsFrom_append, ttlsFrom_reissues t pre (fun x hx => hall x (by simp [hx])) hin]
+  obtain ⟨p, o⟩ := last
+  have hp : p.ttl = t := hall (p, o) (by simp)
+  simp only [Option.bind_some, ttlsFrom, hp, if_true]
+  rcases hl with h | h <;> simp at h <;> subst h <;> simp
+
+theorem tcpLoop_shape (c : Cfg) : ∀ (os : List SendOutcome) (s : TS) (p : Probe)
+    (log : List (Probe × SendOutcome)), (∀ x ∈ log, x.2 = .addrInUse) →
+    ∀ s' lg, tcpLoop c s p log os = .ok (s', lg) → LogShape lg := by
+  intro os
+  induction os with
+  | nil =>
+    intro s p log hlog s' lg h
+    simp [tcpLoop] at h
+    exact ⟨log, (p, .ok), h.2.symm, hlog, Or.inl rfl⟩
+  | cons o os ih =>
+    intro s p log hlog s' lg h
+    cases o with
+    | ok =>
+      simp [tcpLoop, doSend] at h
+      exact ⟨log, (p, .ok), h.2.symm, hlog, Or.inl rfl⟩
+    | probeFailed =>
+      simp only [tcpLoop, doSend] at h
+      cases hf : failProbe s with
+      | ok s2 =>
+        simp [hf] at h
+        exact ⟨log, (p, .probeFailed), h.2.symm, hlog, Or.inr rfl⟩
+      | err e => simp [hf] at h
+      | panic => simp [hf] at h
+    | addrInUse =>
+      simp only [tcpLoop, doSend, R.bind_ok] at h
+      cases hcap : roundHasCapacity s with
+      | ok b =>
+        cases b with
+        | true =>
+          simp only [hcap, R.bind_ok, if_true] at h
+          cases hr : reissueProbe c s s.now with
+          | ok sp =>
+            obtain ⟨s2, p2⟩ := sp
+            simp only [hr, R.bind_ok] at h
+            exact ih s2 p2 (log ++ [(p, .addrInUse)])
+              (by intro x hx; simp at hx; rcases hx with hx | hx; exact hlog x hx; subst hx; rfl) s' lg h
+          | err e => simp [hr] at h
+          | panic => simp [hr] at h
+        | false => simp [hcap] at h
+      | err e => simp [hcap] at h
+      | panic => simp [hcap] at h
+    | fatal => simp [tcpLoop, doSend] at h
+
+theorem sendRequest_shape (c : Cfg) (s : TS) (sends : List SendOutcome) (s' : TS)
+    (lg : List (Probe × SendOutcome)) (h : sendRequest c s sends = .ok (s', lg)) (hne : lg ≠ []) :
+    LogShape lg := by
+  unfold sendRequest at h
+  cases hg : canSendR c s with
+  | ok b =>
+    cases b with
+    | false => simp [hg] at h; exact absurd h.2.symm (fun e => hne e.symm)
+    | true =>
+      simp only [hg, R.bind_ok, if_true] at h
+      unfold doSends at h
+      have single : ∀ (p : Probe) (o : SendOutcome) (s1 : TS),
+          (do let (s, e) ← doSend s1 o
+              match e with
+              | none => (.ok (s, [(p, o)]) : R (TS × List (Probe × SendOutcome)))
+              | some e => .err e) = .ok (s', lg) → LogShape lg := by
+        intro p o s1 h
+        cases o with
+        | ok => simp [doSend] at h; exact ⟨[], (p, .ok), by simp [h.2.symm], by simp, Or.inl rfl⟩
+        | probeFailed =>
+          simp only [doSend] at h
+          cases hf : failProbe s1 with
+          | ok s2 => simp [hf] at h; exact ⟨[], (p, .probeFailed), by simp [h.2.symm], by simp, Or.inr rfl⟩
+          | err e => simp [hf] at h
+          | panic => simp [hf] at h
+        | addrInUse => simp [doSend] at h
+        | fatal => simp [doSend] at h
+      cases hp : c.proto with
+      | tcp =>
+        simp only [hp] at h
+        cases hcap : roundHasCapacity s with
+        | ok b =>
+          cases b with
+          | true =>
+            simp only [hcap, R.bind_ok, if_true] at h
+            cases hn : nextProbe c s s.now with
+            | ok sp =>
+              obtain ⟨s1, p⟩ := sp
+              simp only [hn, R.bind_ok] at h
+              exact tcpLoop_shape c sends s1 p [] (by simp) s' lg h
+            | err e => simp [hn] at h
+            | panic => simp [hn] at h
+          | false => simp [hcap] at h
+        | err e => simp [hcap] at h
+        | panic => simp [hcap] at h
+      | icmp =>
+        simp only [hp] at h
+        cases hn : nextProbe c s s.now with
+        | ok sp =>
+          obtain ⟨s1, p⟩ := sp
+          simp only [hn, R.bind_ok] at h
+          exact single p _ s1 h
+        | err e => simp [hn] at h
+        | panic => simp [hn] at h
+      | udp =>
+        simp only [hp] at h
+        cases hn : nextProbe c s s.now with
+        | ok sp =>
+          obtain ⟨s1, p⟩ := sp
+          simp only [hn, R.bind_ok] at h
+          exact single p _ s1 h
+        | err e => simp [hn] at h
+        | panic => simp [hn] at h
+  | err e => simp [hg] at h
+  | panic => simp [hg] at h
 
 end TV.Strat
